@@ -130,7 +130,7 @@ func (c *VCtx) sharedHavoc(st *State, before *State) {
 	if c.top == nil {
 		return
 	}
-	if len(c.globalClauses()) == 0 && len(c.ghostMaps()) == 0 && !c.usesAtomics {
+	if len(c.globalClauses()) == 0 && len(c.ghostMaps()) == 0 && !c.usesAtomics && !c.hasVolatile() {
 		return
 	}
 	// atomic cells: everything except the local ones
@@ -155,6 +155,44 @@ func (c *VCtx) sharedHavoc(st *State, before *State) {
 			cur = Store(cur, tt, Select(old, tt))
 		}
 		st.heaps[h] = c.name("h", cur)
+	}
+	// fields declared volatile / published: written without a lock by whoever holds the token
+	for _, pkg := range c.relevantPkgs() {
+		ps := c.eng.Specs[pkg]
+		var tn []string
+		for n := range ps.Objects {
+			tn = append(tn, n)
+		}
+		sort.Strings(tn)
+		for _, n := range tn {
+			sp := ps.Objects[n]
+			obj := c.eng.TPkgs[pkg].Types.Scope().Lookup(n)
+			if obj == nil {
+				continue
+			}
+			stt, ok := obj.Type().Underlying().(*types.Struct)
+			if !ok {
+				continue
+			}
+			for _, f := range append(append([]string{}, sp.Volatile...), sp.Published...) {
+				for i := 0; i < stt.NumFields(); i++ {
+					if stt.Field(i).Name() == f {
+						hn := fieldHeapName(obj.Type(), f)
+						c.heapSorts[hn] = ArrSort(SRef, sortOf(stt.Field(i).Type()))
+						old := c.heap(st, hn, c.heapSorts[hn])
+						nw := c.fresh("H!"+hn, c.heapSorts[hn])
+						c.heapWellFormed(st, hn, nw)
+						cur := nw
+						for _, r := range c.freshObjs {
+							if !c.isPublished(r) {
+								cur = Store(cur, r, Select(old, r))
+							}
+						}
+						st.heaps[hn] = c.name("h", cur)
+					}
+				}
+			}
+		}
 	}
 	// ghost maps
 	for _, g := range c.ghostMaps() {
@@ -325,7 +363,16 @@ func (c *VCtx) assertGlobal(st, before *State, tag string) {
 				continue
 			}
 		}
+		c.exemptFresh = nil
+		if q, ok := g.cl.E.(*EQuant); ok && q.Forall && tag != "exit" {
+			for _, r := range c.freshObjs {
+				if !c.isPublished(r) {
+					c.exemptFresh = append(c.exemptFresh, r)
+				}
+			}
+		}
 		goal := c.translateBool(c.globalScope(g.pkg, st, before), g.cl.E)
+		c.exemptFresh = nil
 		c.proveP(c.pkgProps(g.pkg), fmt.Sprintf("%s.%s.%s", tag, kind, clauseLabel(g.cl, i)),
 			fmt.Sprintf("global %s of %s after %s: %s", map[bool]string{false: "invariant", true: "two-state guarantee"}[g.trans], shortPkg(g.pkg), tag, g.cl.Src), st.pc, goal)
 	}
@@ -420,14 +467,7 @@ func (c *VCtx) freshObjectGhost(st *State, r *Term, t types.Type) {
 	}
 	if c.objectSpec(t) != nil {
 		c.freshObjs = append(c.freshObjs, r)
-		for _, g := range c.ghostMaps() {
-			ks, vs := arrParts(g.sort)
-			if vs != SRef {
-				continue
-			}
-			h := c.heap(st, g.heap, g.sort)
-			c.fact(T(SBool, fmt.Sprintf("(forall ((k %s)) (! (not (= (select %s k) %s)) :pattern ((select %s k))))", ks, h.S, r.S, h.S)))
-		}
+		c.noGhostRefs(st, r)
 	}
 	for i := 0; i < stt.NumFields(); i++ {
 		f := stt.Field(i)
@@ -436,5 +476,28 @@ func (c *VCtx) freshObjectGhost(st *State, r *Term, t types.Type) {
 				c.freshObjectGhost(st, c.embedAddr(r, t, f.Name(), f.Type()), f.Type())
 			}
 		}
+	}
+}
+
+func (c *VCtx) hasVolatile() bool {
+	for _, pkg := range c.relevantPkgs() {
+		for _, sp := range c.eng.Specs[pkg].Objects {
+			if len(sp.Volatile)+len(sp.Published) > 0 {
+				return true
+			}
+		}
+	}
+	return false
+}
+
+// noGhostRefs: no entry of a reference-valued ghost map is r (r is not reachable by anybody who could have set one).
+func (c *VCtx) noGhostRefs(st *State, r *Term) {
+	for _, g := range c.ghostMaps() {
+		ks, vs := arrParts(g.sort)
+		if vs != SRef {
+			continue
+		}
+		h := c.heap(st, g.heap, g.sort)
+		c.fact(T(SBool, fmt.Sprintf("(forall ((k %s)) (! (not (= (select %s k) %s)) :pattern ((select %s k))))", ks, h.S, r.S, h.S)))
 	}
 }
